@@ -39,6 +39,7 @@ BASES = {"ConvexPolyhedron": ("ConvexPolyhedron", "Polyhedron"), "ConvexPolygon"
 def _case(draw):
     c = draw(_shape_case())
     c["zero_radius"] = draw(st.integers(0, 5)) == 0
+    c["xs"] = draw(st.sampled_from([0.0, 0.0, 0.0, 0.0, -9.0, -6.0, -3.0, 3.0, 6.0]))
     c["attrs"] = draw(st.lists(st.sampled_from(["vertices", "volume", "area", "centroid", "radius", "normal", "faces", "a", "iq", "nope", "gsd_shape_spec"]),
                                min_size=0, max_size=4, unique=True))
     return c
@@ -102,7 +103,7 @@ def _run(case, rec):
     rec.label("cls:" + kind, "zero_radius" if zero_r else None)
     size = (2 * float(np.max(np.linalg.norm(obj.vertices - np.mean(obj.vertices, axis=0), axis=1)))) if has_v else 1.0
     off_origin = has_v and float(np.linalg.norm(np.mean(obj.vertices, axis=0))) >= size
-    rec.label("off_origin" if off_origin else None)
+    rec.label("off_origin" if off_origin else None, "extreme_scale" if abs(case.get("xs", 0.0)) >= 6 and has_v else None)
     rec.nontrivial = bool(off_origin or zero_r or kind == "Polygon")
     # ---------------- GSD round trip
     spec = get(obj, "gsd_shape_spec")
